@@ -1278,7 +1278,7 @@ namespace avel {
 
     [[nodiscard]]
     AVEL_FINL vec2x64f fdim(vec2x64f x, vec2x64f y) {
-        return avel::max(x - y, vec2x64f{0.0});
+        return blend(x <= y, vec2x64f{0.0}, x - y);
     }
 
     [[nodiscard]]
